@@ -86,6 +86,7 @@ def impl(case):
         if 'at least one array' in str(e):
             return {'no_events': True}
         raise
+    guard = synth.InputGuard(trajectory=traj, transitions=tr, sites=sites)
     rd = tr.radial_distribution(floating_specie='Li', max_dist=case['max_dist'], resolution=case['res'])
     table = []
     for state, coll in rd.items():
@@ -98,6 +99,7 @@ def impl(case):
     s2 = others[0]
     r12 = radial_distribution_between_species(trajectory=traj, specie_1='Li', specie_2=s2, max_dist=case['max_dist'], resolution=case['res'])
     r21 = radial_distribution_between_species(trajectory=traj, specie_1=s2, specie_2='Li', max_dist=case['max_dist'], resolution=case['res'])
+    out['inputs_changed'] = guard.changed()
     out['bs'] = {'s2': s2, 'y12': [float(v) for v in r12.y], 'y21': [float(v) for v in r21.y], 'x': [float(v) for v in r12.x]}
     return out
 
@@ -185,7 +187,7 @@ def oracle(case, out):
     d2, near = _prep(case, out)
     if near:
         return []
-    fs = []
+    fs = synth.inputs_clause(out, 'radial_distribution / radial_distribution_between_species')
     uniq = sorted(set(case['labels']))
     want, over = _model_table(case, out, d2)
     got = {}
